@@ -358,6 +358,12 @@ def pmap(fn, items, jobs=None):
     return res
 
 
+def pmap_mixed(jobs):
+    """jobs: list of (function, argument) of different kinds in one pool, in the
+    given order (put the long ones first)."""
+    return pmap(lambda j: j[0](j[1]), jobs)
+
+
 # ---------------------------------------------------------------------------
 # native builds for replay
 
